@@ -149,6 +149,9 @@ class BaseProperty(base.BaseObject):
         self._val_cardinality = None
 
         self._dtype = None
+        if isinstance(dtype, dtypes.DType):
+            # Keep the plain name; a DType member cannot be written to a YAML file.
+            dtype = dtype.value
         if dtypes.valid_type(dtype):
             self._dtype = dtype
         else:
@@ -265,6 +268,9 @@ class BaseProperty(base.BaseObject):
         the change is refused. The dtype can always be changed, if
         a Property does not contain values.
         """
+        if isinstance(new_type, dtypes.DType):
+            # Keep the plain name; a DType member cannot be written to a YAML file.
+            new_type = new_type.value
         # check if this is a valid type
         if not dtypes.valid_type(new_type):
             raise AttributeError("'%s' is not a valid type." % new_type)
